@@ -22,7 +22,7 @@ RULE = ("scenarios of 5-9 result-storing jobs (return values: JSON, None, large,
 ASSUMPTIONS = ["in-memory message broker; result bucket broker in-memory or the real RedisBucketBroker over the fake Redis", "virtual time",
                "a store fault is a ConnectionError raised by the bucket broker's store_bucket"]
 EVAL_COUNTER = "buckets_or_faults_judged"
-REQUIRED = ["buckets_or_faults_judged", "buckets_judged", "fault_runs", "chains_overwritten", "eager_buckets", "disabled_checked", "unencodable_return_buckets", "undescribable_failures", "late_read_polls", "timezone_offset_runs"]
+REQUIRED = ["buckets_or_faults_judged", "buckets_judged", "fault_runs", "chains_overwritten", "eager_buckets", "disabled_checked", "unencodable_return_buckets", "undescribable_failures", "late_read_polls", "timezone_offset_runs", "runs_over_redis", "runs_over_rabbit", "result_store_writes_attributed"]
 CASE_TIMEOUT = 150
 
 KINDS = ["value", "none", "large", "exc", "timeout", "chain2", "chain3_fail", "recurring", "eager_ack_res", "eager_nack_exc", "eager_retry_res", "eager_ack_two_sets", "eager_exc_then_res", "eager_res_exc_res", "disabled", "disabled_eager", "badret", "badret_chain", "exc_unprintable", "chain_ttl"]
@@ -41,7 +41,7 @@ def gen_cases(tier, seed):
             forced = order[(2 * i + slot) % len(order)]
             if forced not in ks:
                 ks[slot] = forced
-        cases.append({"bucket": rnd.choice(["mem", "redis"]), "kinds": ks, "seed": rnd.randrange(10**6), "tl": rnd.choice([1, 3, 1000])})
+        cases.append({"bucket": rnd.choice(["mem", "redis"]), "kinds": ks, "seed": rnd.randrange(10**6), "tl": rnd.choice([1, 3, 1000]), "mkind": ["mem", "mem", "redis", "rabbit"][i % 4]})
     # the same on machines whose local time is behind / ahead of UTC (bucket timestamps are naive local datetimes, the Redis
     # store is told an absolute expiry time)
     for i, tz in enumerate(("PST8", "JST-9", "EST5", "IST-5:30") if tier == "thorough" else ("PST8", "JST-9")):
@@ -128,7 +128,8 @@ async def scenario(loop, case, fault_at, info):
     from rv.wl import World, run_worker
 
     rnd = random.Random(case["seed"])
-    w = World(loop, "mem", converter="basic", seed=case["seed"], bucket_kind=case["bucket"])
+    # (the message broker matters too: Redis and RabbitMQ carry the parameters - "keep the result or not" among them - as text)
+    w = World(loop, case.get("mkind", "mem"), converter="basic", seed=case["seed"], bucket_kind=case["bucket"], latency=None)
     try:
         rb = w.conn.results_bucket_broker
         counter = {"n": 0}
@@ -213,6 +214,14 @@ async def scenario(loop, case, fault_at, info):
 
 def judge_baseline(case, info, out, stats, fps):
     bk = case["bucket"]
+    # every write to the result store belongs to a job that asked for its result
+    known = {p["rid"] for p in info["plans"].values() if p["store"]}
+    strays = [c for c in info["store_calls"] if c[0] not in known]
+    stats["result_store_writes_attributed"] += len(info["store_calls"])
+    stats["runs_over_" + case.get("mkind", "mem")] += 1
+    if strays:
+        out.append(V("written_when_disabled", "unasked-for-bucket", f"{len(strays)} write(s) to the result store under ids no job asked for: {[c[0] for c in strays][:3]} "
+                                                                    f"(jobs with results disabled: {[i for i, p in info['plans'].items() if not p['store']]}; message broker {case.get('mkind', 'mem')})", bk))
     for id_, p in info["plans"].items():
         kind, exp = p["kind"], p["exp"]
         b = info["job_result"][id_]
@@ -231,7 +240,9 @@ def judge_baseline(case, info, out, stats, fps):
             if len(ts_) != 2:
                 out.append(V("stale_bucket", "chain_ttl/store-count", f"{id_}: {len(ts_)} stores for 2 executions", bk))
                 continue
-            window = [(t, ok) for t, ok in info["timeline"].get(id_, []) if ts_[1] + 0.01 <= t <= ts_[1] + 3.0 - 0.05]
+            # (the Redis store expires keys at whole seconds - the client truncates the absolute expiry time - so the last
+            # second of a bucket's life is not demanded of it; C19's stored-bucket probes use the same resolution)
+            window = [(t, ok) for t, ok in info["timeline"].get(id_, []) if ts_[1] + 0.01 <= t <= ts_[1] + 3.0 - 0.05 - (1.0 if bk == "redis" else 0.0)]
             late = [(t, ok) for t, ok in window if t > ts_[0] + 3.0]
             stats["late_read_polls"] += len(late)
             bad = [(round(t, 3), ok) for t, ok in window if ok is not True]
